@@ -24,31 +24,53 @@ Fixpoint atanh_terms (up : bool) (J : nat) (j : Z) (pa pb a2 b2 : Z) : Z :=
 
 Definition nterms : nat := 48.
 
-(* enclosure of fp * atanh (a/b), 0 <= a, 3a <= b *)
-Definition atanh_lo (a b : Z) : Z := atanh_terms false nterms 0 a b (a * a) (b * b).
-Definition atanh_hi (a b : Z) : Z :=
-  let J := Z.of_nat nterms in
-  atanh_terms true nterms 0 a b (a * a) (b * b)
-  + cdiv (fp * a ^ (2 * J + 1) * (b * b)) ((2 * J + 1) * b ^ (2 * J + 1) * (b * b - a * a)).
+(* enclosure of fp * atanh (a/b) from J terms, 0 <= a < b; the tail bound makes the upper end valid for any J *)
+Definition atanh_lo_n (J : nat) (a b : Z) : Z := atanh_terms false J 0 a b (a * a) (b * b).
+Definition atanh_hi_n (J : nat) (a b : Z) : Z :=
+  let Jz := Z.of_nat J in
+  atanh_terms true J 0 a b (a * a) (b * b)
+  + cdiv (fp * a ^ (2 * Jz + 1) * (b * b)) ((2 * Jz + 1) * b ^ (2 * Jz + 1) * (b * b - a * a)).
+Definition atanh_lo := atanh_lo_n nterms.   (* used with 3a <= b *)
+Definition atanh_hi := atanh_hi_n nterms.
 
 Definition ln2_lo : Z := 2 * atanh_lo 1 3.
 Definition ln2_hi : Z := 2 * atanh_hi 1 3.
 
-(* enclosure of fp * ln k, k >= 1 *)
-Definition ln_lo (k : Z) : Z := let e := Z.log2 k in e * ln2_lo + 2 * atanh_lo (k - 2 ^ e) (k + 2 ^ e).
-Definition ln_hi (k : Z) : Z := let e := Z.log2 k in e * ln2_hi + 2 * atanh_hi (k - 2 ^ e) (k + 2 ^ e).
+(* enclosure of fp * ln k, k >= 1: one reduction by the power of two *)
+Definition ln_small_lo (k : Z) : Z := let e := Z.log2 k in e * ln2_lo + 2 * atanh_lo (k - 2 ^ e) (k + 2 ^ e).
+Definition ln_small_hi (k : Z) : Z := let e := Z.log2 k in e * ln2_hi + 2 * atanh_hi (k - 2 ^ e) (k + 2 ^ e).
+
+(* k >= 32: a second reduction by c/16, c = floor (16 k / 2^e) in 16..31:
+   ln k = (e - 4) ln 2 + ln c + 2 atanh ((16 k - 2^e c) / (16 k + 2^e c)), argument below 1/33, 14 terms
+   (keeps the numbers small for counts in the tens of millions) *)
+Definition ln_lo (k : Z) : Z :=
+  if k <? 32 then ln_small_lo k
+  else let e := Z.log2 k in let c := (16 * k) / 2 ^ e in
+       (e - 4) * ln2_lo + ln_small_lo c + 2 * atanh_lo_n 14 (16 * k - 2 ^ e * c) (16 * k + 2 ^ e * c).
+Definition ln_hi (k : Z) : Z :=
+  if k <? 32 then ln_small_hi k
+  else let e := Z.log2 k in let c := (16 * k) / 2 ^ e in
+       (e - 4) * ln2_hi + ln_small_hi c + 2 * atanh_hi_n 14 (16 * k - 2 ^ e * c) (16 * k + 2 ^ e * c).
 
 (* enclosure of log2 k as rationals *)
 Definition log2_lo (k : Z) : Q := if k <=? 1 then 0%Q else Qmake (ln_lo k) (Z.to_pos ln2_hi).
 Definition log2_hi (k : Z) : Q := if k <=? 1 then 0%Q else Qmake (ln_hi k) (Z.to_pos ln2_lo).
+
+(* equal counts are grouped: (count, how many buckets have it) *)
+Fixpoint add_count (c : Z) (l : list (Z * Z)) : list (Z * Z) :=
+  match l with
+  | [] => [(c, 1)]
+  | (c', m) :: r => if c =? c' then (c', m + 1) :: r else (c', m) :: add_count c r
+  end.
 
 Definition entropy_bounds (hist : list N) (n : N) : Q * Q :=
   if (n =? 0)%N then (0%Q, 0%Q)
   else
     let nz := Z.of_N n in
     let cs := map Z.of_N (filter (fun c => negb (c =? 0)%N) hist) in
-    let s_lo := fold_right (fun c acc => Qred (inject_Z c * log2_lo c + acc)%Q) 0%Q cs in
-    let s_hi := fold_right (fun c acc => Qred (inject_Z c * log2_hi c + acc)%Q) 0%Q cs in
+    let groups := fold_right add_count [] cs in
+    let s_lo := fold_right (fun cm acc => Qred (inject_Z (fst cm * snd cm) * log2_lo (fst cm) + acc)%Q) 0%Q groups in
+    let s_hi := fold_right (fun cm acc => Qred (inject_Z (fst cm * snd cm) * log2_hi (fst cm) + acc)%Q) 0%Q groups in
     (Qred (log2_lo nz - s_hi / inject_Z nz)%Q, Qred (log2_hi nz - s_lo / inject_Z nz)%Q).
 
 (* sanity: 4 equally frequent values -> exactly 2 bits; enclosure is tight *)
@@ -59,4 +81,14 @@ Proof. vm_compute. reflexivity. Qed.
 Example ln2_digits :   (* ln 2 = 0.693147180559945309417232121458... *)
   (693147180559945309417232121458 * fp <=? ln2_lo * 1000000000000000000000000000000)
   && (ln2_hi * 1000000000000000000000000000000 <=? 693147180559945309417232121459 * fp) = true.
+Proof. vm_compute. reflexivity. Qed.
+
+(* the two reductions agree (k >= 32), and a large uniform histogram: 256 buckets of 2^16 -> exactly 8 bits *)
+Example ln_reductions_agree :
+  forallb (fun k => (ln_lo k <=? ln_small_hi k) && (ln_small_lo k <=? ln_hi k) && (ln_hi k - ln_lo k <=? 2 ^ 20))
+          [32; 33; 47; 48; 63; 64; 1000; 65535; 65536; 1048577] = true.
+Proof. vm_compute. reflexivity. Qed.
+Example entropy_uniform256_large :
+  let (lo, hi) := entropy_bounds (map (fun _ => 65536%N) (seq 0 256)) 16777216 in
+  (Qle_bool lo 8 && Qle_bool 8 hi && Qle_bool (hi - lo) (1 # 1000000000000000000000000))%Q = true.
 Proof. vm_compute. reflexivity. Qed.
